@@ -163,7 +163,11 @@ def statement_pairs(check, wp, family, seed, npairs, maxchoices=6):
     fp = {s: r["fps"][0][1] for s, r in zip(singles, sres)
           if not (r.get("panic") or r.get("hang") or r.get("crash")) and r.get("nerr", 1) == 0 and r.get("path_ok") and len(r.get("fps") or []) == 1}
     good = sorted(fp)
-    pairs = [(rng.choice(good), rng.choice(good)) for _ in range(npairs)]
+    # first statements that leave much behind on the parser's stacks (long chains, lists, arguments, strings): each of them in
+    # front of a sample of all statements; plus random pairs
+    polluters = sorted(good, key=lambda x: (-x.count("->") - x.count("[") - x.count("(") - x.count(",") - x.count("$"), x))[:25] + rng.sample(good, min(15, len(good)))
+    seconds = rng.sample(good, min(len(good), max(1, npairs // 2 // len(polluters))))
+    pairs = [(a, b) for a in polluters for b in seconds] + [(rng.choice(good), rng.choice(good)) for _ in range(npairs // 2)]
     pres = wp.run([{"op": "stmt_fps", "src": "<?php " + a + "\n" + b, "ver": ver, "path": ["Stmts"]} for a, b in pairs])
     bad = []
     for (a, b), r in zip(pairs, pres):
